@@ -58,3 +58,13 @@ package failsafegrpc
 //@   ensures [C18.grpc.retryable.codes] err != nil && ok ==> result == (code == 14 || code == 4 || code == 8)
 //@   havoc
 //@   modifies calls(extfn("google.golang.org/grpc/status.FromError")), calls(extfn("google.golang.org/grpc/internal/status.(*Status).Code"))
+
+// the builder registers exactly the retryable-status condition
+//@ func RetryPolicyBuilder
+//@   builder
+//@   dyntype retrypolicy.RetryPolicyBuilder *retrypolicy.config only
+//@   inlinecalls (*config).HandleIf, retrypolicy.Builder
+//@   let c := asref(result, *retrypolicy.config)
+//@   ensures [C18.grpc.builder.handles_retryable_statuses] typeis(result, *retrypolicy.config) && len(c.failureConditions) == 1 && c.failureConditions[0] == fnid("RetryPolicyBuilder$1") && len(c.abortConditions) == 0
+//@   havoc
+//@   modifies *
